@@ -74,6 +74,11 @@ def run(m, rep, tier):
     if f is not None:
         check_hint(m, f, p4)
 
+    # ---- P6: (function pointer, context) pairing ---------------------------------------------
+    from .util import check_callback_context
+    _cb = rep.rule('P6', 'every call through a caller-supplied function pointer passes the context supplied with it', floor=1)
+    check_callback_context(m, _cb, ('map.c',))
+
     p5 = rep.rule('P5', 'map clear: detached iterator, node freed after the callback on every path', floor=1)
     c15.check_map_adapter(m, p5, rep.rule('P5b', 'map clear: one callback site, one free per node', floor=1))
 
@@ -84,8 +89,8 @@ def _callee_allocates(m, name):
 
 
 def check_insert(m, f, rule):
-    finds = [c for c in f.all_insts() if c.op == 'call' and c.callee and 'find' in c.callee]
-    allocs = [c for c in f.all_insts() if c.op == 'call' and c.callee and _callee_allocates(m, c.callee)]
+    finds = [c for c in f.all_insts() if c.op == 'call' and c.callee and _map_finder(m, c.callee)]
+    allocs = [c for c in f.all_insts() if c.op == 'call' and c.callee and (c.callee in ('malloc', 'calloc') or _callee_allocates(m, c.callee))]
     inserts = [c for c in f.all_insts() if c.op == 'call' and c.callee in ('cstl_rbtree_insert', 'cstl_bintree_insert')]
     iters = [c for c in f.all_insts() if c.op == 'call' and c.callee and 'iterator_init' in c.callee]
     if len(finds) != 1 or not allocs or not inserts:
@@ -117,7 +122,7 @@ def check_insert(m, f, rule):
     kinds = set()
     for ret, ps in res.exits:
         na, ins_nodes, it = ps.auto
-        rv = const_int(ps.lookup(_k(ret.o[0]))) if ret.o else None
+        rv = const_int(typestate.value_of(f, ps, ret.o[0])) if ret.o else None
         found = ps.knows(('ne', fnd.ref, 'null'))
         iter_known = ps.knows(('ne', '$3', 'null'))
         if found is True:
@@ -159,61 +164,142 @@ def check_insert(m, f, rule):
         rule.ok('cstl_map_insert', '%d exit states: found -> 1, new -> insert once + 0, failed -> -1' % len(res.exits), floc(m, f))
 
 
+def _map_finder(m, name):
+    """by effect: reaches the tree search and stores nothing into a map / tree node"""
+    g = m.ifn(name)
+    if g is None or not (g.file or '').endswith('map.c'):
+        return False
+    cmp = any(c.op == 'call' and c.callee is None and c.x.get('fty') == 'i32 (i8*, i8*, i8*)' for c in g.all_insts())
+    wr = False
+    for s in g.all_insts():
+        if s.op == 'store':
+            a = resolve_addr(g, s.o[1])
+            ri = g.get(a.root) if isinstance(a.root, str) else None
+            if ri is not None and ri.op == 'alloca':
+                continue                      # the probe node on the stack
+            if a.fsteps[-1:] and a.fsteps[-1][0] in (MNODE, 'cstl_bintree_node', 'cstl_rbtree_node', 'cstl_bintree'):
+                wr = True
+    return cmp and not wr
+
+
 def check_erase(m, f, rule):
-    pv = Prover(f)
-    bad = []
-    finds = [c for c in f.all_insts() if c.op == 'call' and c.callee in ('cstl_map_find', '__cstl_map_find')]
-    erases = [c for c in f.calls('cstl_map_erase_iterator')]
+    bad = set()
+    calls = [c for c in f.all_insts() if c.op == 'call' and c.callee and not c.is_intrinsic()]
+    finds = [c for c in calls if _map_finder(m, c.callee)]
+    erases = [c for c in calls if c.callee == 'cstl_map_erase_iterator']
     if len(finds) != 1 or len(erases) != 1:
-        rule.undecided('cstl_map_erase', 'find / erase-by-iterator calls not recognised', floc(m, f))
+        rule.undecided('cstl_map_erase', 'lookup / erase-by-iterator calls not recognised (%d/%d)' % (len(finds), len(erases)), floc(m, f))
         return
     fnd, er = finds[0], erases[0]
     if fnd.o[:2] != ['$0', '$1']:
-        bad.append('the lookup is not for the caller\'s key in the caller\'s map')
-    if not f.dominates(fnd, er):
-        bad.append('the iterator is not filled by find before the entry is unlinked')
-    if strip_bitcasts(f, er.o[1]) != strip_bitcasts(f, fnd.o[2]):
-        bad.append('the iterator erased is not the one find filled')
-    # erase only under a non-end iterator (its `_` read after the find)
-    ok = False
-    for (op, x, y) in pv.facts_at(er):
-        xi = f.get(x)
-        if op == 'ne' and y == 'null' and xi is not None and xi.op == 'load':
-            a = resolve_addr(f, xi.o[0])
-            if a.fsteps[-1:] == (('cstl_map_iterator_t', '_'),) and f.dominates(fnd, xi):
-                ok = True
-    if not ok:
-        bad.append('erase-by-iterator runs even when find produced the end iterator')
-    # return codes
-    for r in f.returns():
-        v = f.get(r.o[0]) if r.o else None
-        vals = {}
-        if v is not None and v.op == 'phi':
-            for o, bb in zip(v.o, v.x['bb']):
-                vals[bb] = const_int(o)
-        elif r.o:
-            vals[''] = const_int(r.o[0])
-        for bb, c in vals.items():
-            blk = f.bb.get(bb)
-            after_erase = blk is not None and (blk is er.block or f.dominates_block(er.block, blk))
-            if after_erase and c != 0:
-                bad.append('a removed entry is reported with %s instead of 0' % c)
-            if not after_erase and c != (1 << 32) - 1:
-                bad.append('an absent key is reported with %s instead of -1' % c)
-    # reported iterator detached
-    outs = [s for s in f.all_insts() if s.op == 'store' and resolve_addr(f, s.o[1]).root == '$2' and resolve_addr(f, s.o[1]).fsteps[-1:] == (('cstl_map_iterator_t', '_'),)]
-    copies = [c for c in f.all_insts() if c.op == 'call' and (c.callee or '').startswith('llvm.memcpy') and resolve_addr(f, c.o[0]).root == '$2']
-    if not outs or any(const_int(s.o[0]) != 0 for s in outs):
-        bad.append('the reported iterator is not detached (`_` := NULL)')
-    for s in outs:
-        if copies and not all(f.dominates(c, s) for c in copies):
-            bad.append('the reported iterator is detached before it is filled')
-        if not pv.prove_at(('ne', '$2', 'null'), s):
-            bad.append('the out-parameter is written without a NULL check')
+        bad.add('the lookup is not for the caller\'s key in the caller\'s map')
+    it = strip_bitcasts(f, er.o[1])                       # the local iterator handed to erase-by-iterator
+    # who fills that iterator: the lookup itself (iterator-level find) or an iterator_init from the node it returned
+    fillers = [c for c in calls if c is not er and any(isinstance(o, str) and strip_bitcasts(f, o) == it for o in c.o)]
+    filled_from_find = False
+    for c in fillers:
+        if c is fnd:
+            filled_from_find = True
+        elif any(isinstance(o, str) and strip_bitcasts(f, o) == fnd.ref for o in c.o) and f.dominates(fnd, c):
+            filled_from_find = True
+    if not filled_from_find or not all(f.dominates(c, er) or not _reach(f, c, er) for c in fillers) or not any(f.dominates(c, er) for c in fillers):
+        bad.add('the iterator erased is not the one find filled')
+    # values whose non-NULL-ness means "the key was found"
+    keys = []
+    if fnd.ty and fnd.ty.endswith('*'):
+        keys.append(fnd.ref)
+    for ld in f.all_insts():
+        if ld.op == 'load':
+            a = resolve_addr(f, ld.o[0])
+            if a.fsteps[-1:] == (('cstl_map_iterator_t', '_'),) and strip_bitcasts(f, a.root) == it and any(f.dominates(c, ld) for c in fillers):
+                keys.append(ld.ref)
+
+    def found(ps):
+        ks = [ps.knows(('ne', _k(k), 'null')) for k in keys]
+        if any(x is True for x in ks):
+            return True
+        if any(x is False for x in ks):
+            return False
+        return None
+
+    def transfer(ins, st, ps):
+        n, det, out = st
+        if ins.op == 'call':
+            if ins.x.get('noreturn'):
+                return None
+            if ins is er:
+                if found(ps) is not True:
+                    bad.add('erase-by-iterator runs even when find produced the end iterator')
+                return (min(n + 1, 2), det, out)
+            if ins in fillers:
+                return (n, False, out)
+            if (ins.callee or '').startswith('llvm.memcpy') and resolve_addr(f, ins.o[0]).root == '$2':
+                if ps.knows(('ne', '$2', 'null')) is not True:
+                    bad.add('the out-parameter is written without a NULL check')
+                src = strip_bitcasts(f, resolve_addr(f, ins.o[1]).root)
+                return (n, det, 'detached' if (src == it and det) else 'attached')
+        if ins.op == 'store':
+            a = resolve_addr(f, ins.o[1])
+            if a.fsteps[-1:] == (('cstl_map_iterator_t', '_'),):
+                z = ins.o[0] == 'null' or const_int(ins.o[0]) == 0
+                if a.root == '$2':
+                    if ps.knows(('ne', '$2', 'null')) is not True:
+                        bad.add('the out-parameter is written without a NULL check')
+                    if out == 'none' and z:
+                        return (n, det, 'early')
+                    return (n, det, 'detached' if z else 'attached')
+                if strip_bitcasts(f, a.root) == it:
+                    return (n, z, out)
+        return st
+
+    rel = set(keys) | {'$2'}
+    for i2 in f.all_insts():
+        if i2.op == 'icmp' and any(o in rel for o in i2.o):
+            rel.add(i2.ref)
+    try:
+        res = typestate.run(f, (0, False, 'none'), transfer, limit=50000)
+    except typestate.Limit as e:
+        rule.undecided('cstl_map_erase', str(e), floc(m, f))
+        return
+    if not res.exits:
+        rule.undecided('cstl_map_erase', 'no return reached', floc(m, f))
+        return
+    for ret, ps in res.exits:
+        n, det, out = ps.auto
+        rv = const_int(typestate.value_of(f, ps, ret.o[0])) if ret.o else None
+        fd = found(ps)
+        if fd is True:
+            if n != 1:
+                bad.add('a found entry is removed %d time(s)' % n)
+            if rv != 0:
+                bad.add('a removed entry is reported with %s instead of 0' % rv)
+        elif fd is False:
+            if n:
+                bad.add('erase-by-iterator runs even when find produced the end iterator')
+            if rv != (1 << 32) - 1:
+                bad.add('an absent key is reported with %s instead of -1' % rv)
+        else:
+            bad.add('a path returns at %s without deciding whether the key was found' % ret.loc())
+        wants = ps.knows(('ne', '$2', 'null'))
+        if wants is True and out != 'detached':
+            bad.add({'none': 'the iterator is not reported although the caller asked for it',
+                     'early': 'the reported iterator is detached before it is filled',
+                     'attached': 'the reported iterator is not detached (`_` := NULL)'}[out])
+        if wants is None and out != 'none':
+            bad.add('the out-parameter is written without a NULL check')
+        if wants is None and out == 'none':
+            bad.add('a path returns at %s without reporting an iterator (it never looks at the out-parameter): the caller\'s iterator keeps '
+                    'whatever it held instead of the end iterator' % ret.loc())
     if bad:
-        rule.violation('cstl_map_erase', '; '.join(sorted(set(bad))[:4]), floc(m, f), {})
+        rule.violation('cstl_map_erase', '; '.join(sorted(bad)[:4]), floc(m, f), {})
     else:
-        rule.ok('cstl_map_erase', 'find -> (non-end) erase-by-iterator -> 0, else -1; reported iterator detached', floc(m, f))
+        rule.ok('cstl_map_erase', 'find -> (non-end) erase-by-iterator once -> 0, else -1; reported iterator detached (%d exit state(s))' % len(res.exits), floc(m, f))
+
+
+def _reach(f, a, b):
+    if a.block is b.block:
+        return a.pos < b.pos
+    return b.block in f.reachable_from(a.block)
 
 
 def check_erase_iterator(m, f, rule):
